@@ -372,4 +372,49 @@ example : flatten (.other (.join (.group (.other (.sort .nil 11) 31) false 21 (.
 
 end Flattener
 
+/-! ### a sort key that repeats an earlier one (C03-m10 de-duplicated such lists keeping the LAST occurrence) -/
+section RepeatedKey
+open Model.Rel
+
+/-- comparing by a key that compares equal under an earlier key of the list adds nothing: in `sort {a, b, -a}` the third key
+never decides - the FIRST occurrence of a column is the one that orders, whatever direction a later occurrence has -/
+theorem repeated_sort_key_never_decides (pre post : List SortKey) (e : Expr) (d d' : Bool) (a b : Row) :
+    cmpKeys (pre ++ (e, d) :: post ++ [(e, d')]) a b = cmpKeys (pre ++ (e, d) :: post) a b := by
+  induction pre with
+  | nil =>
+    simp only [List.nil_append, List.cons_append, cmpKeys]
+    cases ho : (e.eval a).cmp (e.eval b) with
+    | lt => cases d <;> simp
+    | gt => cases d <;> simp
+    | eq =>
+      -- the first occurrence compares equal: so does the last one, and everything in between is unchanged
+      have : ∀ (l : List SortKey), cmpKeys (l ++ [(e, d')]) a b = cmpKeys l a b := by
+        intro l
+        induction l with
+        | nil => simp [cmpKeys, ho]
+        | cons k ks ih =>
+          obtain ⟨ke, kd⟩ := k
+          simp only [List.cons_append, cmpKeys]
+          cases (ke.eval a).cmp (ke.eval b) <;> cases kd <;> simp [ih]
+      cases d <;> simp [this post]
+  | cons k ks ih =>
+    obtain ⟨ke, kd⟩ := k
+    simp only [List.cons_append, cmpKeys]
+    rw [ih]
+
+/-- hence the sorted rows are the same with and without the repeated key, for tables of any size -/
+theorem repeated_sort_key_keeps_the_order (pre post : List SortKey) (e : Expr) (d d' : Bool) (rows : List Row) :
+    sortRows (pre ++ (e, d) :: post ++ [(e, d')]) rows = sortRows (pre ++ (e, d) :: post) rows := by
+  unfold sortRows
+  congr 1
+  funext a b
+  rw [repeated_sort_key_never_decides]
+
+/-- ... while keeping the LAST occurrence instead changes it: `sort {a, b, -a}` is not `sort {b, -a}` -/
+theorem dedup_keeping_last_counterexample :
+    sortRows [(.col 0, false), (.col 1, false), (.col 0, true)] [[.int 2, .int 1], [.int 1, .int 2]] ≠
+    sortRows [(.col 1, false), (.col 0, true)] [[.int 2, .int 1], [.int 1, .int 2]] := by decide
+
+end RepeatedKey
+
 end Props.C03
